@@ -148,7 +148,12 @@ class Array(Environment):
             colnum = 1
             for cell in cells:
                 if colnum < start or colnum > end:
-                    colnum += 1
+                    # A spanning cell outside of the range still
+                    # takes up all of its columns
+                    if cell.attributes:
+                        colnum += cell.attributes.get('colspan', 1)
+                    else:
+                        colnum += 1
                     continue
                 cell.style['border-%s-style' % location] = 'solid'
                 cell.style['border-%s-color' % location] = 'black'
